@@ -178,9 +178,12 @@ def parseExts : List Tlv → Option (List Ext)
       | none => none
       | some es => some (e :: es)
 
-def Ext.ok (e : Ext) : Bool :=
-  oidCanon e.oid && decide (e.oid.length < 2 ^ 31) && decide (e.val.length < 2 ^ 31) &&
+/-- the bounds under which the fork reads the marshalled extension back (lengths below 2^31) -/
+def Ext.sized (e : Ext) : Bool :=
+  decide (e.oid.length < 2 ^ 31) && decide (e.val.length < 2 ^ 31) &&
     decide ((concatTlvs (tlvsOfExt e)).length < 2 ^ 31)
+
+def Ext.ok (e : Ext) : Bool := oidCanon e.oid && e.sized
 
 def encExts (es : List Ext) : Bytes := concatTlvs (es.map encExt)
 
@@ -222,9 +225,11 @@ def optList {α} : Option α → List α
   | none => []
   | some a => [a]
 
-def Tbs.fields (t : Tbs) : List Tlv :=
-  optList t.version ++ [t.serial, t.sigAlg, t.issuer, t.validity, t.subject, t.spki] ++
-    (optList t.uid ++ (optList t.suid ++ optList (t.exts.map extsField)))
+/-- the fields before the extensions -/
+def Tbs.pre (t : Tbs) : List Tlv :=
+  optList t.version ++ [t.serial, t.sigAlg, t.issuer, t.validity, t.subject, t.spki] ++ (optList t.uid ++ optList t.suid)
+
+def Tbs.fields (t : Tbs) : List Tlv := t.pre ++ optList (t.exts.map extsField)
 
 def marshalTbs (t : Tbs) : Bytes := encTlv ⟨[0x30], concatTlvs t.fields⟩
 
